@@ -163,6 +163,8 @@ void FeatureChecker::visitFrame(const frame_t& frame)
 {
     for (size_t i = 0; i < frame.get_size(); ++i) {
         type_t t = frame.get_symbol(i).get_type();
+        while (t.is_array())
+            t = t.get_sub();  // an array of channels counts like its elements
         if (t.is_channel() && !t.is(Constants::BROADCAST))
             supported_methods.stochastic = false;
     }
